@@ -51,6 +51,15 @@ def _as(a, dt, wide):
         return a.astype(">f8" if wide else ">f4")
     if dt == "be64":
         return a.astype(">f8")
+    if dt == "strided":  # a non-contiguous view (every second element of a larger array)
+        big = np.zeros(tuple(2 * d for d in a.shape) if a.ndim else (), dtype=a.dtype)
+        if a.ndim == 0:
+            return a.copy()
+        view = big[tuple(slice(None, None, 2) for _ in a.shape)]
+        view[...] = a
+        return view
+    if dt == "fortran":
+        return np.asfortranarray(a)
     return a.copy()
 
 
@@ -64,7 +73,7 @@ def _f32(b, shape=None, f64=False):
 def _f64(b, shape=None, dt=None):
     a = np.frombuffer(b, dtype="<f8")
     a = a.reshape(shape) if shape is not None else a
-    return _as(a, "be" if dt in ("be", "be64") else None, True)
+    return _as(a, "be" if dt in ("be", "be64") else dt if dt in ("strided", "fortran") else None, True)
 
 
 def _scalar32(b):
@@ -92,7 +101,22 @@ def _date(ts):
     return _dt.datetime.fromtimestamp(int(ts))
 
 
-def build(C, f64=False):
+def build(C, f64=False, dates=None):
+    """dates=(creation, modification): given to the constructor as keywords by the classes that
+    accept them (optical setup, camera calibration, platform calibration), else set afterwards."""
+    b = _build(C, f64, dates)
+    if dates is not None and not getattr(b, "_dates_by_ctor", False):
+        stamp(b, *dates)
+    return b
+
+
+def _ctor_dates(dates):
+    if dates is None:
+        return {}
+    return {"creation_date": _date(dates[0]), "last_modification_date": _date(dates[1])}
+
+
+def _build(C, f64=False, dates=None):
     t = C["t"]
     if t == "data3d":
         b = Data3D(C["freq"], C["nFrames"], _f32(C["vol"]), _f32(C["rot"], (3, 3)), _f32(C["trans"]),
@@ -112,16 +136,23 @@ def build(C, f64=False):
                           _f32(C["trans"]), _scalar32(C["start"]), ForceTorque3DBlockFormat(C["fmt"]))
         for tr in C["tracks"]:
             r = _rows(tr["mask"], tr["data"], 9, f64)
-            b.add_track(ForceTorqueTrack(tr["label"], r[:, 0:3].copy(), r[:, 3:6].copy(), r[:, 6:9].copy()))
+            keep = f64 in ("strided", "fortran")
+            b.add_track(ForceTorqueTrack(tr["label"], r[:, 0:3] if keep else r[:, 0:3].copy(),
+                                         r[:, 3:6] if keep else r[:, 3:6].copy(),
+                                         r[:, 6:9] if keep else r[:, 6:9].copy()))
     elif t == "fpdata":
         b = ForcePlatformsDataBlock(_scalar32(C["start"]), C["freq"], C["nFrames"],
                                     ForcePlatformBlockFormat(C["fmt"]))
         for p in C["plats"]:
             r = _rows(p["mask"], p["data"], 6, f64)
-            b.add_platform(ForcePlatformData(r[:, 0:2].copy(), r[:, 2:5].copy(), r[:, 5].copy()),
+            keep = f64 in ("strided", "fortran")
+            b.add_platform(ForcePlatformData(r[:, 0:2] if keep else r[:, 0:2].copy(),
+                                             r[:, 2:5] if keep else r[:, 2:5].copy(),
+                                             r[:, 5] if keep else r[:, 5].copy()),
                            channel=p["ch"])
     elif t == "fpcal":
-        b = ForcePlatformsCalibrationDataBlock(format=ForcePlatformCalibrationBlockFormat(C["fmt"]))
+        b = ForcePlatformsCalibrationDataBlock(format=ForcePlatformCalibrationBlockFormat(C["fmt"]), **_ctor_dates(dates))
+        b._dates_by_ctor = dates is not None
         for p in C["plats"]:
             b.add_platform(ForcePlatformInfo(p["label"], _f32(p["size"]), _f32(p["pos"], (4, 3))),
                            channel=p["ch"])
@@ -148,13 +179,15 @@ def build(C, f64=False):
                                           _f64(c["center"], None, f64), _f64(c["xd"], None, f64), _f64(c["yd"], None, f64), vp))
         b = CalibrationDataBlock(DistorsionModel(C["model"]), _f32(C["vol"]), _f32(C["rot"], (3, 3)),
                                  _f32(C["trans"]), np.array(C["map"], dtype="<i2"), cams,
-                                 CalibrationDataBlockFormat(C["fmt"]))
+                                 CalibrationDataBlockFormat(C["fmt"]), **_ctor_dates(dates))
+        b._dates_by_ctor = dates is not None
     elif t == "optical":
         chans = []
         for c in C["chans"]:
             vp = np.array([c["vp"][0:2], c["vp"][2:4]], dtype="<i4")
             chans.append(OpticalChannelData(c["idx"], c["lens"], c["type"], c["name"], vp))
-        b = OpticalSetupBlock(OpticalSetupBlockFormat(C["fmt"]), chans)
+        b = OpticalSetupBlock(OpticalSetupBlockFormat(C["fmt"]), chans, **_ctor_dates(dates))
+        b._dates_by_ctor = dates is not None
     elif t == "events":
         b = TemporalEventsData(TemporalEventsDataFormat(C["fmt"]), _scalar32(C["start"]))
         for e in C["events"]:
